@@ -505,7 +505,9 @@ class Unit:
         expr = str(self.expr)
         base_value = copy.deepcopy(self.base_value)
         base_offset = copy.deepcopy(self.base_offset)
-        dimensions = copy.deepcopy(self.dimensions)
+        # sympy expressions are immutable; copying them would lose the identity of
+        # the dimension singletons that the angle/temperature/logarithmic checks use
+        dimensions = self.dimensions
         if deep:
             registry = copy.deepcopy(self.registry)
         else:
